@@ -788,6 +788,15 @@ package rueidis
 //@   modifies *
 //@   assert [C03 a-transaction-is-requeued-whole-only-when-multi-was-answered-by-the-server] at Lock#1: 0 <= mi && mi < len(resps) && resps[mi].val.string() == "OK" && isMulti(commands[mi]) && ei < len(commands) && isExec(commands[ei])
 
+// the pipelined path: a request that has been handed to the writer (and may have been executed) must not be failed with
+// errConnExpired, the marker every client layer answers by sending the command again. KNOWN FINDING: both sites use it.
+//@ func pipe._backgroundRead$1 #c03
+//@   modifies *
+//@   assert [C03 a-partially-answered-batch-is-not-failed-with-the-resend-marker] at FinishResult: resp.err != errConnExpired || err == errConnExpired
+//@ func pipe._background #c03
+//@   modifies *
+//@   assert [C03 a-request-taken-by-the-writer-is-not-failed-with-the-resend-marker] at FinishResult#1: resp.err != errConnExpired
+
 //@ func dedicatedClusterClient.Do #c03
 //@   modifies *
 //@   loop 0: repeat-only-if [C03 sent-again-only-after-an-approved-retry-of-a-retryable-command] c.retry && cmd.IsRetryable() && returned(WaitOrSkipRetry)
@@ -975,6 +984,15 @@ package rueidis
 // C26 / C27 / C06 — the push dispatcher (pipe.go handlePush), for every push frame: a message goes to the registry of its own
 // kind under its own channel (pattern) with exactly the frame's fields; confirmations go to the registry of their kind;
 // an invalidation reaches the cache and every callback with exactly the keys the server sent (nil for a flush), the cache first.
+// a lost connection: the cache is closed and BOTH invalidation callbacks (the connection's and the dedicated hook's) are told
+// "everything may be stale" (nil), each independently of the other
+//@ immutable [C27] pipe onInvalidations writers=_newPipe
+//@ immutable [C27] pshks hooks close
+//@ func pipe._background #c27
+//@   modifies *
+//@   assert [C27 a-lost-connection-is-a-nil-invalidation-for-the-connection-callback] at onInvalidations#1: arg0 == nil
+//@   assert [C27 a-lost-connection-is-a-nil-invalidation-for-the-dedicated-hook] at onInvalidations#2: arg0 == nil
+//@   assert [C27 both-callbacks-are-told-independently-of-each-other] at NewErrorResult: (p.onInvalidations != nil ==> calls(onInvalidations, 1) == 1) && (old.hooks.onInvalidations != nil ==> calls(onInvalidations, 2) == 1)
 //@ func subs.Confirm #c26
 //@   modifies *
 //@   assert [C26 every-subscriber-callback-of-the-channel-gets-the-confirmation] at fn: arg0 == sub
